@@ -5,7 +5,8 @@
 //! catch_unwind, counting allocator with a hard cap on live heap, hook step budget (deterministic
 //! hang verdict), and writes one line per event to stdout:
 //!     B <idx>                                    before the build (flushed)
-//!     E <idx> <ok|err|panic> <steps> <depth> <peak> <micros> <fingerprint> <message…>
+//!     E <idx> <ok|err|panic> <steps> <depth> <peak> <micros> <fingerprint> <allocator calls> <message…>
+//!     A <idx> <calls>                            allocator-call budget exceeded -> exit 96
 //!     H <idx> <steps>                            step budget exceeded  -> exit 97
 //!     M <idx> <live bytes>                       heap cap exceeded     -> exit 98
 //! A worker that dies on a signal leaves its last `B` line as the culprit's identity.
@@ -22,6 +23,8 @@ use std::time::{Duration, Instant};
 
 pub const STEP_BUDGET: u64 = 50_000_000;
 pub const HEAP_CAP: i64 = 256 << 20;
+/// allocator calls one case may make (see alloc::mark_calls)
+pub const CALL_BUDGET: u64 = 3_000_000_000;
 pub const WALL_BACKSTOP_S: u64 = 90;
 
 #[derive(Clone, Debug)]
@@ -37,8 +40,10 @@ pub struct Case {
 #[derive(Clone, Debug, PartialEq)]
 pub enum Verdict {
     /// normal return: (kind, steps, depth, peak heap, micros, fingerprint, message)
-    Done { kind: String, steps: u64, depth: u32, peak: u64, micros: u64, fp: u64, msg: String },
+    Done { kind: String, steps: u64, depth: u32, peak: u64, micros: u64, fp: u64, allocs: u64, msg: String },
     Hang { steps: u64 },
+    /// allocator-call budget exceeded (deterministic measure of work the step hooks do not see)
+    Churn { calls: u64 },
     Memory { live: u64 },
     /// died on a signal / aborted: (description, stderr tail)
     Crash { how: String, stderr: String },
@@ -79,12 +84,17 @@ pub fn fingerprint(o: &Outcome) -> u64 {
 pub fn worker_main(args: &[String]) -> i32 {
     let mut budget = STEP_BUDGET;
     let mut cap = HEAP_CAP;
+    let mut call_cap = CALL_BUDGET;
     let mut i = 0;
     while i < args.len() {
         match args[i].as_str() {
             "--budget" => {
                 i += 1;
                 budget = args[i].parse().unwrap_or(STEP_BUDGET);
+            }
+            "--calls" => {
+                i += 1;
+                call_cap = args[i].parse().unwrap_or(CALL_BUDGET);
             }
             "--cap" => {
                 i += 1;
@@ -131,12 +141,14 @@ pub fn worker_main(args: &[String]) -> i32 {
         let _ = out.flush();
         alloc::CURRENT_CASE.store(idx, Ordering::Relaxed);
         let mark = alloc::mark();
+        alloc::mark_calls(call_cap);
         verif::reset_steps(budget, Some(on_budget));
         let t = Instant::now();
         let outcome = if kind == b'F' { fw::build_file(&PathBuf::from(&text), &[]) } else { fw::build_str(&text) };
         let micros = t.elapsed().as_micros() as u64;
         let (steps, depth) = (verif::steps(), verif::max_depth());
         let peak = alloc::peak_since(mark);
+        let allocs = alloc::calls_since_mark();
         verif::reset_steps(u64::MAX, None);
         let msg = match &outcome {
             Outcome::Ok(_) => String::new(),
@@ -146,7 +158,7 @@ pub fn worker_main(args: &[String]) -> i32 {
         let fp = fingerprint(&outcome);
         let okind = outcome.kind();
         drop(outcome);
-        let _ = writeln!(out, "E {} {} {} {} {} {} {:016x} {}", idx, okind, steps, depth, peak, micros, fp, msg);
+        let _ = writeln!(out, "E {} {} {} {} {} {} {:016x} {} {}", idx, okind, steps, depth, peak, micros, fp, allocs, msg);
         let _ = out.flush();
     }
 }
@@ -271,7 +283,7 @@ where
                 }
                 progress.fetch_add(1, Ordering::Relaxed);
                 let l = line.trim_end();
-                let mut it = l.splitn(9, ' ');
+                let mut it = l.splitn(10, ' ');
                 match it.next() {
                     Some("B") => current = it.next().and_then(|x| x.parse().ok()),
                     Some("E") => {
@@ -282,8 +294,9 @@ where
                         let peak = it.next().and_then(|x| x.parse().ok()).unwrap_or(0);
                         let micros = it.next().and_then(|x| x.parse().ok()).unwrap_or(0);
                         let fp = it.next().and_then(|x| u64::from_str_radix(x, 16).ok()).unwrap_or(0);
+                        let allocs = it.next().and_then(|x| x.parse().ok()).unwrap_or(0);
                         let msg = it.next().unwrap_or("").to_string();
-                        sink(idx, &Verdict::Done { kind, steps, depth, peak, micros, fp, msg });
+                        sink(idx, &Verdict::Done { kind, steps, depth, peak, micros, fp, allocs, msg });
                         current = None;
                         next_expected = idx + 1;
                     }
@@ -291,6 +304,11 @@ where
                         let idx: usize = it.next().and_then(|x| x.parse().ok()).unwrap_or(usize::MAX);
                         let steps = it.next().and_then(|x| x.parse().ok()).unwrap_or(0);
                         abnormal = Some((idx, Verdict::Hang { steps }));
+                    }
+                    Some("A") => {
+                        let idx: usize = it.next().and_then(|x| x.parse().ok()).unwrap_or(usize::MAX);
+                        let calls = it.next().and_then(|x| x.parse().ok()).unwrap_or(0);
+                        abnormal = Some((idx, Verdict::Churn { calls }));
                     }
                     Some("M") => {
                         let idx: usize = it.next().and_then(|x| x.parse().ok()).unwrap_or(usize::MAX);
